@@ -211,4 +211,54 @@ example : extractQ (mkG (insertQ { fmt := { dec := false, oct := true, showbase 
 example : extractQ (mkG (insertQ { fmt := { showpos := true } } 6 4).out [] {}) = (mkG [] "+6/4".toList.reverse {}, .value 6, .value 4) ∧
     extractQ (mkG (insertQ { fmt := {} } 5 1).out [] { dec := false }) = (mkG [] ['5'] { dec := false }, .value 5, .value 1) := by decide +kernel
 
+/-! ## (c) `operator<< (ostream &, mpf_srcptr)` in every base -/
+
+/-- `emitPieces_layout`: the output calls of `__gmp_doprnt_mpf` (doprntf.c:333-372), for every parameter record coming from a
+    stream and every set of lengths the function can have computed (`piecesOf`: any digits, exponent, precision, notation),
+    write  [padding] sign prefix [padding] body [padding]  where body = the first `intlen` digits, `intzeros` zeros, the
+    point if `pointlen`, `fraczeros` zeros, the next `fraclen` digits, `preczeros` zeros, the exponent text; the padding
+    is `width` − length fill characters placed by adjustfield as for integers (`fieldLayout`). -/
+theorem emitPieces_layout (o : OStream) (letter : Char) (D : FDigits) :
+    callsBytes (emitPieces (paramsFromIos o).1 (piecesOf (paramsFromIos o).1 letter D)) =
+      fieldLayout o.fmt o.width o.fill (piecesOf (paramsFromIos o).1 letter D).sign.toList
+        (piecesOf (paramsFromIos o).1 letter D).showbase (bodyOf (piecesOf (paramsFromIos o).1 letter D)) := by
+  obtain ⟨h1, h3, h4, h5, h6, h7, h8⟩ := piecesOf_bounds (paramsFromIos o).1 letter D
+  rw [emitPieces_bytes _ _ (fParams_justify o) h1 h3 h4 h5 h6 h7 h8, fParams_layout]
+
+/-- `insertF_layout`: `o << f` for every stream state, every combination of flags (basefield: hex, octal, decimal or several
+    bits = decimal; floatfield: fixed, scientific, none or both = general), every width, fill and precision and every mpf:
+    the width is reset to 0 and what is handed to `o.write` is `specInsertF`:
+      [padding] sign prefix [padding] integer-part [.] fraction trailing-zeros exponent [padding]
+    with, for the digit string s and exponent e (value 0.s × base^e) that `mpfDigits` obtains from mpf_get_str (`D`):
+      sign     "-" if mpf_get_str delivered one, else "+" under showpos;
+      prefix   "0x"/"0X" under showbase on a hex stream, "0" under showbase on an octal stream unless s is empty;
+      positional notation (fixed; general with -4 ≤ e-1 < max 1 prec): integer part = the first e digits, filled with zeros
+               up to e places, or "0" when e ≤ 0; fraction = -e zeros and the digits, resp. the digits after the first e;
+      scientific notation: integer part = first digit ("0" if none), fraction = the others, exponent = the letter ('@' on a
+               hex stream, else 'e', 'E' under uppercase), the sign of e-1 and |e-1| in DECIMAL with at least two digits;
+      trailing zeros up to `precision` fraction digits in fixed and scientific, up to `precision` digits in all in general
+               with showpoint, none in general without showpoint; precision 0 means 6 except in fixed; negative = 0;
+      the point is written iff a fraction digit or trailing zero follows or showpoint is set;
+      padding  as for integers (`fieldLayout`); every byte is written, NUL fill characters included.
+    A stream that is not good() receives nothing. -/
+theorem insertF_layout (o : OStream) (f : Mpf.F) :
+    insertFG o f = ({ o with width := 0 } : OStream).write
+      (specInsertF o.fmt o.width o.fill (paramsFromIos o).1 (mpfDigits (paramsFromIos o).1 f)) := by
+  have hw : (paramsFromIos o).2 = { o with width := 0 } := rfl
+  unfold insertFG doprntMpfG mpfPieces specInsertF
+  simp only [hw]
+  rw [emitPieces_layout, piecesOf_sign, piecesOf_showbase, piecesOf_body]
+
+-- non-vacuity: 255/16 = 15.9375 = f.f (hex); scientific hex with '@' and a decimal exponent; octal with showbase; general
+example : (insertFG { fmt := { dec := false, hex := true, fixed := true }, precision := 3 } ⟨2, 2, 1, [0xf000000000000000, 0xf]⟩).out = "f.f00".toList ∧
+    (insertFG { fmt := { dec := false, hex := true, scientific := true, showbase := true, uppercase := true }, precision := 2 }
+       ⟨2, -1, 1, [0xff]⟩).out = "-0XF.F0@+01".toList ∧
+    (insertFG { fmt := { dec := false, oct := true, showbase := true, internal := true, showpos := true }, width := 9, fill := '_' } ⟨2, 1, 1, [8]⟩).out =
+       "+0_____10".toList ∧
+    (insertFG { fmt := { dec := false, hex := true }, precision := 4 } ⟨2, 1, 5, [1]⟩).out = "1@+64".toList ∧
+    (insertFG { fmt := { showpoint := true } } ⟨2, 1, 1, [5]⟩).out = "5.00000".toList := by decide +kernel
+-- fixed with precision 0 rounds to nearest on the next digit, with a carry into a new leading digit: 0xff.8 -> "100"
+example : (insertFG { fmt := { dec := false, hex := true, fixed := true }, precision := 0 } ⟨2, 2, 1, [0x8000000000000000, 0xff]⟩).out = "100".toList := by
+  decide +kernel
+
 end Mpir.CxxIo
